@@ -23,8 +23,9 @@
                    prompt_logs cuts it at the EStart markers)
    decoded s     = every key press the parser produced, in order *)
 From Coq Require Import ZArith List Bool.
-From PTK Require Import Lib.Sx Lib.Py Gen.C17_Bindings Model.C03_Vt100Parser Model.C17_Typeahead Model.C17_Emacs
-  Proofs.C17_Core Proofs.C17_Conserve Proofs.C17_Accept Proofs.C17_Silent Proofs.C17_Main Proofs.C17_Script Proofs.C17_Witness.
+From PTK Require Import Lib.Sx Lib.Py Gen.C17_Bindings Model.C03_Vt100Parser Model.C03_Vt100Input Model.C17_Typeahead Model.C17_Emacs
+  Proofs.C17_Core Proofs.C17_Conserve Proofs.C17_Accept Proofs.C17_Silent Proofs.C17_Main Proofs.C17_Script Proofs.C17_Witness
+  Proofs.C17_ExitClean.
 Import ListNotations.
 
 (* Conservation, for every binding set, handler set, parser, chunking and
@@ -209,3 +210,50 @@ Theorem C17_line_feed_witness :
   = [RText [111; 110; 101]; RText [116; 119; 111]; RText [116; 104; 114; 101; 101]].
 Proof. exact witness_lf. Qed.
 Print Assumptions C17_line_feed_witness.
+
+(* The hypotheses of C17_script hold for the regenerated binding table of a
+   default PromptSession (dispatch d_lookup / d_lookup_scan / d_waits /
+   d_cpr_lookup = the instance's dispatch over the table without the user
+   binding of the 'extra' scenarios): proved from the criterion computed on
+   the table - a binding that may end the prompt or that feeds a key press
+   (effects 13 14 15 20) cannot match keys lying strictly inside a longer
+   binding; feeding rows are exactly the one-key C-j rows - by following the
+   retry loop: such a binding can only fire on the whole buffer, after which
+   the buffer is empty and the activation ends. *)
+Theorem C17_real_table_no_pushback :
+  cpr_silent e_eff d_cpr_lookup e_feeds /\
+  no_pushback d_lookup d_lookup_scan d_waits e_eff e_is_cprh d_cpr_lookup e_feeds.
+Proof. exact (conj d_cpr_silent d_no_pushback). Qed.
+Print Assumptions C17_real_table_no_pushback.
+
+(* Hence the script theorem for the real table, with no hypothesis left on the
+   binding set: for every schedule without timeout labels / close, with reports
+   anywhere, if what has been decoded is (reports apart) a prefix of the
+   script, the prompts that have returned, returned the script's lines. *)
+Theorem C17_script_real_table : forall ls e r lines rs,
+  quiet ls ->
+  let s := @run estate bid result pstate d_lookup d_lookup_scan d_waits e_eff e_is_cprh d_cpr_lookup e_feeds
+                e_restart e_pfeed e_pflush REof ls (@init estate bid result pstate e Model.C03_Vt100Parser.init r) in
+  @lines_ok estate bid result d_lookup d_lookup_scan d_waits e_eff e_is_cprh d_cpr_lookup e_feeds e_restart (e_restart e) lines rs ->
+  (exists tail, nc (decoded s) ++ tail = concat lines) ->
+  results s = firstn (length (results s)) rs.
+Proof. exact script_real_table. Qed.
+Print Assumptions C17_script_real_table.
+
+(* The same over BYTES: the parser component is C03's byte-level input model
+   (Model/C03_Vt100Input.v: incremental UTF-8 decoder with surrogateescape +
+   parser + Vt100Input._buffer), the pipe holds bytes and a read may end inside
+   a multi-byte character or an escape sequence.  [decoded s] is then what
+   Vt100Input.read_keys() returned for the byte chunks actually read;
+   C03_bytes_chunk_independent / C03_input_conservation (Props/C03.v) say it is
+   the decoding of the concatenated bytes, whatever the cuts.  (Not yet stated
+   as one formula: decoded s = the key presses of the bytes consumed so far.) *)
+Theorem C17_script_real_table_bytes : forall ls e r lines rs,
+  quiet ls ->
+  let s := @run estate bid result vstate d_lookup d_lookup_scan d_waits e_eff e_is_cprh d_cpr_lookup e_feeds
+                e_restart read_keys flush_keys REof ls (@init estate bid result vstate e vinit r) in
+  @lines_ok estate bid result d_lookup d_lookup_scan d_waits e_eff e_is_cprh d_cpr_lookup e_feeds e_restart (e_restart e) lines rs ->
+  (exists tail, nc (decoded s) ++ tail = concat lines) ->
+  results s = firstn (length (results s)) rs.
+Proof. exact script_real_table_bytes. Qed.
+Print Assumptions C17_script_real_table_bytes.
